@@ -10,6 +10,9 @@ import numpy as np
 from . import c17rec, mutate, srecipe, walker
 
 
+PIPE = None        # (send, recv) of the worker process; set by fleet_worker
+
+
 class State:
     def __init__(self):
         self.h: dict = {}          # handle -> object
@@ -418,3 +421,92 @@ def op_check(st, seed, with_keys=True, max_pairs=400):
 
 def op_canon_text(st, hid, mode="identity", scalar_types=False):
     return walker.canon_text(st.h[hid], mode, scalar_types=scalar_types)
+
+
+# {{{ process actor: this interpreter plays ONE rank of a multi-rank run
+
+class _ProcOp:
+    def __init__(self, fn, commute):
+        self.fn = fn
+        self.commute = commute
+
+    @staticmethod
+    def Create(function, commute=False):
+        return _ProcOp(function, commute)
+
+    def Free(self):
+        pass
+
+
+class _ProcComm:
+    """the collectives of mpi4py, served by the orchestrator over the pipe"""
+
+    def __init__(self, rank, size):
+        self.rank = rank
+        self.size = size
+        self.ncoll = 0
+
+    def Get_rank(self):
+        return self.rank
+
+    def Get_size(self):
+        return self.size
+
+    def _coll(self, name, obj, root, op=None):
+        send, recv = PIPE
+        self.ncoll += 1
+        send(("coll", name, pickle.dumps(obj, protocol=pickle.HIGHEST_PROTOCOL),
+              root, bool(op is not None and op.commute)))
+        while True:
+            msg = recv()
+            if msg[0] == "fold":
+                a, b = pickle.loads(msg[1]), pickle.loads(msg[2])
+                send(("folded", pickle.dumps(op.fn(a, b, None),
+                                             protocol=pickle.HIGHEST_PROTOCOL)))
+            elif msg[0] == "coll-result":
+                return None if msg[1] is None else pickle.loads(msg[1])
+            elif msg[0] == "abort":
+                raise RuntimeError("run aborted by the orchestrator")
+            else:
+                raise RuntimeError(f"unexpected message {msg[0]}")
+
+    def bcast(self, obj, root=0):
+        return self._coll("bcast", obj, root)
+
+    def gather(self, sendobj, root=0):
+        return self._coll("gather", sendobj, root)
+
+    def allreduce(self, sendobj, op=None):
+        return self._coll("allreduce", sendobj, 0, op)
+
+    def barrier(self):
+        return self._coll("barrier", None, 0)
+
+
+def op_rank_run(st, recipe, rank):
+    """run find_distributed_partition + verify + number_distributed_tags as
+    rank *rank* of the recipe, in THIS interpreter (own hash seed and heap)"""
+    import sys
+    import types
+    import pytato as pt
+    from . import mrecipe, partcheck
+    mpi4py = types.ModuleType("mpi4py")
+    mpi = types.ModuleType("mpi4py.MPI")
+    mpi.Op = _ProcOp
+    mpi4py.MPI = mpi
+    sys.modules["mpi4py"] = mpi4py
+    sys.modules["mpi4py.MPI"] = mpi
+    dag = mrecipe.build_rank(recipe, rank)
+    comm = _ProcComm(rank, recipe["nranks"])
+    part = pt.find_distributed_partition(comm, dag)
+    pt.verify_distributed_partition(comm, part)
+    npart, next_tag = pt.number_distributed_tags(comm, part, base_tag=4242)
+    local = partcheck.check_local(rank, dag, part)
+    from . import c17rec
+    return {"partition": pickle.dumps(part, protocol=pickle.HIGHEST_PROTOCOL),
+            "numbered": pickle.dumps(npart, protocol=pickle.HIGHEST_PROTOCOL),
+            "next_tag": next_tag, "local_violations": local,
+            "text": c17rec._part_text(part, npart, next_tag),
+            "collectives": comm.ncoll}
+
+# }}}
